@@ -121,7 +121,7 @@ type verifK11Clock struct {
 func newVerifK11Clock() *verifK11Clock {
 	c := &verifK11Clock{grid: vt.ParamInt("grid", 0) == 1, unit: time.Millisecond, max: vt.ParamInt("gap", 60)}
 	if !vt.Symbolic() {
-		c.unit = 4 * time.Millisecond
+		c.unit = 10 * time.Millisecond
 	}
 	c.last = time.Now()
 	return c
@@ -134,7 +134,9 @@ func (c *verifK11Clock) step(name string, min int) time.Time {
 	}
 	gap := vt.IntRange(name, min, c.max)
 	if !vt.Symbolic() {
-		time.Sleep(time.Duration(gap) * c.unit)
+		// absolute schedule (no accumulated drift): the step happens at base + (sum of gaps) * unit
+		c.last = c.last.Add(time.Duration(gap) * c.unit)
+		time.Sleep(time.Until(c.last))
 		return time.Now()
 	}
 	n := time.Now()
@@ -147,6 +149,15 @@ func (c *verifK11Clock) step(name string, min int) time.Time {
 func (c *verifK11Clock) still() {
 	if c.grid && vt.Symbolic() {
 		vt.Assume(time.Now().Equal(c.last))
+	}
+}
+
+// verifK11EarlyWindow (grid mode with jitter only, i.e. the counterexample-seeking jobs): the final request arrives
+// within the first quarter of the extra lifetime that jitter can give the entry. Natively the jitter is really
+// random; with this restriction at least 3 of 4 native trials re-enact a model's schedule successfully.
+func verifK11EarlyWindow(clk *verifK11Clock, jitter uint32, g, setAt time.Time, base time.Duration) {
+	if clk.grid && jitter > 0 && vt.Symbolic() {
+		vt.Assume(g.Sub(setAt) <= base+base*time.Duration(jitter)/400)
 	}
 }
 
@@ -295,7 +306,7 @@ func verifK11Stubs() {
 func VerifK11QueryCache() {
 	trials := 1
 	if !vt.Symbolic() {
-		trials = vt.ParamInt("trials", 8) // the jitter is really random natively
+		trials = vt.ParamInt("trials", 12) // the jitter is really random natively
 	}
 	for i := 0; i < trials; i++ {
 		if verifK11Run(verifK11QueryScenario) {
@@ -370,8 +381,11 @@ func verifK11QueryScenario() (stale bool) {
 		}
 	}
 	del.allowed = !del.allowed
-	n := vt.Choose("page-size", vt.ParamInt("page", 3)) + 1
-	w := vt.Choose("write-position", n)
+	n := vt.ParamInt("page", 1) // exact page size (one job per size)
+	w := vt.ParamInt("w", -1)   // position of the write on the page (enumerated unless given)
+	if w < 0 {
+		w = vt.Choose("write-position", n)
+	}
 	ds.changes, ds.newest = verifK11Page(clk, n, w, tw, tk)
 	if vt.ParamInt("fail", 0) == 1 && vt.ForkBool("readchanges-fails") {
 		ds.err = errVerifK11
@@ -396,7 +410,8 @@ func verifK11QueryScenario() (stale bool) {
 	vt.Reach("invalidation-run-complete")
 
 	// a later Check
-	clk.step("gap-request", 0)
+	g := clk.step("gap-request", 0)
+	verifK11EarlyWindow(clk, jitter, g, s, qttl)
 	inval := cc.DetermineInvalidationTime(ctx, store)
 	r1, err1 := res.ResolveCheck(ctx, mkReq(inval))
 	clk.still()
@@ -419,7 +434,7 @@ func verifK11QueryScenario() (stale bool) {
 func VerifK11IteratorCache() {
 	trials := 1
 	if !vt.Symbolic() {
-		trials = vt.ParamInt("trials", 8)
+		trials = vt.ParamInt("trials", 12)
 	}
 	for i := 0; i < trials; i++ {
 		if verifK11Run(verifK11IteratorScenario) {
@@ -452,7 +467,12 @@ func verifK11IteratorScenario() (stale bool) {
 	cache := &verifK11Cache{}
 	cds := &verifK11Datastore{}
 	cc := cachecontroller.NewCacheController(cds, cache, ctlTTL, qttl, ittl)
-	old := &verifK11Iter{items: []*openfgav1.Tuple{}, errAt: -1}
+	// the result before the write: one tuple (the second iterator cache does not store empty results)
+	existing := &openfgav1.TupleKey{Object: "d:1", Relation: "r", User: "u:5"}
+	if api == 2 {
+		existing = &openfgav1.TupleKey{Object: "d:3", Relation: "r", User: "u:1"}
+	}
+	old := &verifK11Iter{items: []*openfgav1.Tuple{{Key: existing}}, errAt: -1}
 	rd := &verifK11Reader{it: old}
 	wg := &sync.WaitGroup{}
 	var ds storage.RelationshipTupleReader
@@ -482,16 +502,20 @@ func verifK11IteratorScenario() (stale bool) {
 	if it0 == nil {
 		return false
 	}
+	f0, ferr := it0.Next(ctx)
 	_, nerr := it0.Next(ctx)
-	vt.Assert(nerr != nil, "fill: empty result yields a tuple")
+	vt.Assert(ferr == nil && f0.GetKey().GetUser() == existing.GetUser() && nerr != nil, "fill: the query does not yield the datastore's single tuple")
 	it0.Stop()
 	wg.Wait()
 	clk.still()
 	ev, s := cache.raw(key)
-	vt.Assert(ev != nil, "fill: result not stored under the query's key")
 	if ev == nil {
+		// the background drain's own deadline (30 s / 1 min) was already over when it started (the abstract clock may
+		// jump): nothing was stored, nothing to check on this timeline
+		vt.Reach("fill-not-stored")
 		return false
 	}
+	vt.Reach("filled")
 	var t0 time.Time
 	switch e := ev.(type) {
 	case *storage.TupleIteratorCacheEntry:
@@ -516,17 +540,24 @@ func verifK11IteratorScenario() (stale bool) {
 	wk := &openfgav1.TupleKey{Object: "d:1", Relation: "r", User: "u:1"}
 	if api == 2 {
 		wk.Object = "d:2"
-		if vt.Bool("write-is-wildcard") {
+		wild := vt.ParamInt("wild", -1)
+		if wild < 0 {
+			wild = vt.Choose("write-is-wildcard", 2)
+		}
+		if wild == 1 {
 			wk.User = "u:*"
 		}
 	}
-	rd.it = &verifK11Iter{items: []*openfgav1.Tuple{{Key: wk}}, errAt: -1}
-	n := vt.Choose("page-size", vt.ParamInt("page", 3)) + 1
+	rd.it = &verifK11Iter{items: []*openfgav1.Tuple{{Key: existing}, {Key: wk}}, errAt: -1}
+	n := vt.ParamInt("page", 1) // exact page size (one job per size)
 	maxW := n
 	if vt.ParamInt("overflow", 1) == 1 {
 		maxW = n + 1 // w == n: the write is older than everything on the page
 	}
-	w := vt.Choose("write-position", maxW)
+	w := vt.ParamInt("w", -1) // position of the write on the page (enumerated unless given)
+	if w < 0 {
+		w = vt.Choose("write-position", maxW)
+	}
 	cds.changes, cds.newest = verifK11Page(clk, n, w, tw, wk)
 	if w == n {
 		lastTS := cds.changes[n-1].GetTimestamp().AsTime()
@@ -554,6 +585,7 @@ func verifK11IteratorScenario() (stale bool) {
 
 	// the same query again; its cache look-ups (entry, then markers) are taken to happen at one instant
 	g := clk.step("gap-request", 0)
+	verifK11EarlyWindow(clk, jitter, g, s, ettl)
 	it1, err1 := verifK11Query(ctx, ds, api, openfgav1.ConsistencyPreference_MINIMIZE_LATENCY)
 	if vt.Symbolic() && vt.ParamInt("atomic", 1) == 1 {
 		vt.Assume(time.Now().Equal(g))
@@ -564,8 +596,9 @@ func verifK11IteratorScenario() (stale bool) {
 	if it1 == nil {
 		return false
 	}
+	_, e1 := it1.Next(ctx)
 	t, terr := it1.Next(ctx)
-	fresh := rd.reads == 2 && terr == nil && t.GetKey().GetUser() == wk.GetUser()
+	fresh := rd.reads == 2 && e1 == nil && terr == nil && t.GetKey().GetUser() == wk.GetUser() && t.GetKey().GetObject() == wk.GetObject()
 	vt.Assert(fresh, "an iterator cache entry populated before the write was served after an invalidation run that started after the write had completed")
 	it1.Stop()
 	wg.Wait()
@@ -575,7 +608,10 @@ func verifK11IteratorScenario() (stale bool) {
 // JitteredTTL contract used by the argument above: the result lies in [base, base + base*min(pct,100)/100], and
 // is exactly base when pct == 0.
 func VerifK11JitteredTTL() {
-	base := time.Duration(vt.IntRange("base", 1, vt.ParamInt("maxbase", 1<<20)))
+	// base TTLs are enumerated (the function divides the base by 100: symbolic 64-bit division defeats the solver),
+	// the percentage and the random draw stay symbolic
+	bases := []time.Duration{1, 7, 99, 100, 101, 1999, 20500 * time.Microsecond, 10 * time.Second, time.Hour, 1 << 40}
+	base := bases[vt.Choose("base", len(bases))]
 	pct := uint32(vt.IntRange("pct", 0, 150))
 	got := storage.JitteredTTL(base, pct)
 	eff := int64(pct)
